@@ -348,14 +348,17 @@ def _run(bodies, prefix, trace_match=None, setup=None, teardown=None, timeout=60
     return ex
 
 
-def explore(run_one, bound, on_execution, max_executions=None, part=None, split_depth=2):
+def explore(run_one, bound, on_execution, max_executions=None, part=None, split_depth=2, symmetric=False):
     '''iterative preemption bounding: run_one(prefix) -> Execution. on_execution(ex) is called for every execution (return False to stop).
     Returns number of executions; raises nothing on property failure (the callback records it).
     part=(k, n) splits the exploration over n shards.  Every shard walks the top of the execution tree (the default schedule and all
     executions with fewer than `split_depth` deviations from it) in the same deterministic order and numbers what it meets; execution
     number c of the top and subtree number c at depth `split_depth` belong to shard c mod n.  The union of the n parts is exactly the
     set of executions explored without `part`; executions of the top that belong to another shard are run (to enumerate their
-    children) but neither counted nor judged here.'''
+    children) but neither counted nor judged here.
+    symmetric=True (only for identical worker bodies on identical inputs): the very first scheduling decision (which worker moves first)
+    is not varied - an execution that starts with another worker is the mirror image, under renaming of the workers, of one that starts
+    with worker 0 and the same number of preemptions.'''
     count = 0
     stack = [([], 0)]
     c = 0
@@ -379,6 +382,8 @@ def explore(run_one, bound, on_execution, max_executions=None, part=None, split_
             for alt in range(1, len(p['enabled'])):
                 cost = before + (1 if p['running'] in p['enabled'] else 0)
                 if cost > bound:
+                    continue
+                if symmetric and i == 0:
                     continue
                 if top and depth + 1 == split_depth:
                     c += 1
